@@ -45,7 +45,9 @@ def run(tier, seed):
     # track U: the same function for symbol lists of every length (loop invariants + ghost state): proved obligations
     from contracts.regalloc_u import symbol_body_contract, u_contract
 
-    run_contracts(rep, [u_contract(), symbol_body_contract()])
+    from contracts.lifetime_c import loop_ancestor_contract
+
+    run_contracts(rep, [u_contract(), symbol_body_contract(), loop_ancestor_contract()])
     over_16_live(rep)
     replay_known(rep, "C04")
     run_bounded(rep, "C04", [("pressure", {"depth": 4, "max_stmts": 8, "max_funcs": 3}, "calls", 300 if q else 12000),
@@ -59,6 +61,7 @@ def run(tier, seed):
     rep.assume("assign_colors is proved for every number of symbols (track U: 2 loop invariants of 10 + 9 clauses, ghost owner lists / slot fields; mathematical integers); the K obligations (n <= N, complete unrolling) are an independent second encoding of the same function and are labelled bounded",
                "U proof: quantified obligations are discharged by z3 e-matching (MBQI off); 'hypotheses consistent' guards can only show that false is not derivable by instantiation, not exhibit a model",
                "assign_registers: only the body of `for sym in symbols` is under contract (colour c -> c-th register not blocked by a caller, within r0-r15, else the out-of-registers error); the call-graph / blocked-set construction around it is bounded only (known findings C04-transitive-blocking, C04-inlined-return-register)",
+               "get_loop_ancestor is proved to return AN enclosing loop of the function when there is one (lifetimes then cover that loop); that it is not the outermost one is the recorded finding C04-nested-loop-lifetime; the rest of IC10Register.lifetime (min / max over the widened nodes) is bounded only",
                "sorted(xs, key) is an assumed external contract (stable permutation, non-decreasing in key)",
                "that line-interval lifetimes cover real liveness is a whole-program claim: only exercised by the bounded simulation check (dynamically witnessed clobbers only)")
     return rep.finish(min_obligations=10)
